@@ -124,6 +124,49 @@ def m_strip(ip, s, chars=None):
 _STRIP_FUNCS = {}
 
 
+def _one_sided_strip(ip, s, chars, left):
+    if isinstance(chars, Sym):
+        raise Unsupported("strip with symbolic chars")
+    isb = _isb(s)
+    if chars is None:
+        cs = WS_STR
+    else:
+        _check_kind(s, chars, "strip")
+        cs = chars.decode("latin-1") if isinstance(chars, bytes) else chars
+    if not isinstance(s, Sym):
+        return s.lstrip(chars) if left else s.rstrip(chars)
+    p = core.cur()
+    key = ("l" if left else "r") + "".join("%02x" % ord(c) for c in cs)
+    F = _STRIP_FUNCS.get(key)
+    if F is None:
+        F = _STRIP_FUNCS[key] = z3.Function("py_%sstrip_%s" % ("l" if left else "r", key[1:]), z3.StringSort(), z3.StringSort())
+    res = F(s.t)
+    seen = p.ghost.setdefault("strip_apps", {})
+    tag = (key, s.t.get_id())
+    if tag not in seen:
+        seen[tag] = True
+        cut = z3.String(p.fresh_name("strip") + "_cut")
+        cre = sym.re_chars(cs)
+        notc = sym.re_char_not(cs)
+        allc = z3.Range(strval("\x00"), strval(chr(0x2FFFF)))
+        p.add(z3.InRe(cut, z3.Star(cre)))
+        if left:
+            p.add(s.t == z3.Concat(cut, res))
+            p.add(z3.InRe(res, z3.Union(z3.Re(strval("")), z3.Concat(notc, z3.Star(allc)))))
+        else:
+            p.add(s.t == z3.Concat(res, cut))
+            p.add(z3.InRe(res, z3.Union(z3.Re(strval("")), z3.Concat(z3.Star(allc), notc))))
+    return SStr(res, isb)
+
+
+def m_lstrip(ip, s, chars=None):
+    return _one_sided_strip(ip, s, chars, True)
+
+
+def m_rstrip(ip, s, chars=None):
+    return _one_sided_strip(ip, s, chars, False)
+
+
 def m_index(ip, s, sub, *rest):
     if rest:
         raise Unsupported("index with start/end")
@@ -209,7 +252,7 @@ def m_isdigit(ip, s):
 
 STR_METHODS = {
     "startswith": m_startswith, "endswith": m_endswith, "lower": m_lower, "encode": m_encode, "decode": m_decode,
-    "strip": m_strip, "index": m_index, "find": m_find, "replace": m_replace, "join": m_join, "format": m_format,
+    "strip": m_strip, "lstrip": m_lstrip, "rstrip": m_rstrip, "index": m_index, "find": m_find, "replace": m_replace, "join": m_join, "format": m_format,
     "count": m_count, "split": m_split, "splitlines": m_splitlines, "capitalize": m_capitalize,
 }
 
